@@ -697,7 +697,9 @@ func (sd *SpecAnalyser) compareSchema(location DifferenceLocation, schema1, sche
 
 	if isArray(schema1) {
 		if isArray(schema2) {
-			sd.compareSchema(location, schema1.Items.Schema, schema2.Items.Schema)
+			if hasSingleItemsSchema(schema1) && hasSingleItemsSchema(schema2) {
+				sd.compareSchema(location, schema1.Items.Schema, schema2.Items.Schema)
+			}
 		} else {
 			sd.addDiffs(location, addTypeDiff([]TypeDiff{}, TypeDiff{Change: ChangedType, FromType: getSchemaTypeStr(schema1), ToType: getSchemaTypeStr(schema2)}))
 		}
@@ -707,6 +709,11 @@ func (sd *SpecAnalyser) compareSchema(location DifferenceLocation, schema1, sche
 	for _, diff := range diffs {
 		sd.Diffs = sd.Diffs.addDiff(diff)
 	}
+}
+
+// hasSingleItemsSchema is false for arrays without items and for tuples (items: [...])
+func hasSingleItemsSchema(schema *spec.Schema) bool {
+	return schema.Items != nil && schema.Items.Schema != nil
 }
 
 func (sd *SpecAnalyser) compareSimpleSchema(location DifferenceLocation, schema1, schema2 *spec.SimpleSchema) {
